@@ -35,6 +35,17 @@ MUTANTS = [
     ("sup-continue-leaves-error-stop", L + "machine/raw/mod.rs", "        if self.state == State::Stopped {\n            self.state = State::Running", "        if self.state != State::Running {\n            self.state = State::Running", ["C05"]),
     ("sup-stop-overrides-error", L + "machine/raw/mod.rs", "                if machine.state != State::ErrorStopped {\n                    machine.state = State::Stopped;\n                }", "                machine.state = State::Stopped;", ["C05"]),
     ("sup-opcode-0-is-regular-stop", L + "machine/raw/mod.rs", "                warn!(\"Read 0x00 instruction! Error halting\");\n                machine.state = State::ErrorStopped;", "                warn!(\"Read 0x00 instruction! Error halting\");\n                machine.state = State::Stopped;", ["C05", "C01"]),
+    # ---- assembly step (C11)
+    ("step-skips-leaving-boundary", L + "machine/mod.rs", "                while self.is_instruction_done() && self.state() == State::Running && edges_left > 0\n", "                while false && self.is_instruction_done() && self.state() == State::Running && edges_left > 0\n", ["C11"]),
+    ("step-stops-at-memory-wait", L + "machine/mod.rs", "                while !self.is_instruction_done()\n                    && self.state() == State::Running\n                    && edges_left > 0\n                {", "                while !self.is_instruction_done()\n                    && self.state() == State::Running\n                    && edges_left > 0\n                    && edges_left != 4090\n                {", ["C11"]),
+    ("step-bound-too-small", L + "machine/mod.rs", "const MAX_EDGES_PER_ASSEMBLY_STEP: usize = 4096;", "const MAX_EDGES_PER_ASSEMBLY_STEP: usize = 300;", ["C11"]),
+    ("step-one-edge-too-many", L + "machine/mod.rs", "                    self.raw_mut().trigger_clock_edge();\n                    edges_left -= 1;\n                }\n            }\n            StepMode::Real", "                    self.raw_mut().trigger_clock_edge();\n                    edges_left -= 1;\n                }\n                if self.registers().content()[0] == 0x77 { self.raw_mut().trigger_clock_edge(); }\n            }\n            StepMode::Real", ["C11"]),
+    ("step-unbounded-again", L + "machine/mod.rs", "let mut edges_left = Self::MAX_EDGES_PER_ASSEMBLY_STEP;", "let mut edges_left = usize::MAX;", ["C11"]),
+    # ---- no crash (C13)
+    ("crash-input-reg-index", L + "machine/bus.rs", "            self.input_reg[addr - 0xFC]", "            self.input_reg[addr - 0xFB]", ["C13", "C10"]),
+    ("crash-interrupt-source-7", L + "machine/board.rs", "        InterruptSource::from_u8(source).expect(\"infallible\")", "        InterruptSource::from_u8(if source == 7 && self.contains(DAICR::FALLING) { 8 } else { source }).expect(\"infallible\")", ["C13"]),
+    ("crash-nan-temperature", L + "machine/board.rs", "            warn!(\"Temperature value < 0.0. Set to 0.0!\");\n            self.temp = 0.0;", "            warn!(\"Temperature value < 0.0. Set to 0.0!\");\n            assert!(!value.is_nan());\n            self.temp = 0.0;", ["C13"]),
+    ("crash-timer-div-overflow", L + "machine/bus.rs", "            self.int_timer.div3 = (orig & 0xFF00) + lower;", "            self.int_timer.div3 = ((orig & 0xFF00) + lower) * (self.int_timer.div3 + 1);", ["C13"]),
     # ---- cycles (C15)
     ("cyc-wait-also-for-io", L + "machine/raw/mod.rs", "            if *register_out_a <= 0xEF {\n                trace!(\"Generating artificial wait signal\");\n                machine.pending_wait_for_memory = Some(MemoryWait);\n            }\n        } else {\n            machine.last_bus_read = 0;", "            if *register_out_a <= 0xFB {\n                trace!(\"Generating artificial wait signal\");\n                machine.pending_wait_for_memory = Some(MemoryWait);\n            }\n        } else {\n            machine.last_bus_read = 0;", ["C15"]),
     ("cyc-no-wait-reading-0x80", L + "machine/raw/mod.rs", "            if *register_out_a <= 0xEF {\n                trace!(\"Generating artificial wait signal\");\n                machine.pending_wait_for_memory = Some(MemoryWait);\n            }\n        } else {\n            machine.last_bus_read = 0;", "            if *register_out_a <= 0xEF && *register_out_a != 0x80 {\n                trace!(\"Generating artificial wait signal\");\n                machine.pending_wait_for_memory = Some(MemoryWait);\n            }\n        } else {\n            machine.last_bus_read = 0;", ["C15"]),
